@@ -54,3 +54,23 @@ chk("C14", "exploration",
     "40 probabilities per successful fit with 1..30 degrees of freedom: length, finiteness, sign, monotonicity in p, documented panic outside (0,1); squared radius against the oracle's own Student-t quantile and the unweighted oracle Jacobian where the normal matrix is positive definite.",
     "Own t-quantile (self-tested against a committed scipy table); 4e-4 relative tolerance for the library's third-party quantile.",
     "reference-model monitor with independent Student-t quantile", "5/C14")
+chk("C15", "exploration",
+    "Call programs are executed on the real SeparableModelBuilder and on an executable specification written from the property text (a set of defects): all programs of <=4 (quick) / <=5 (thorough) calls over a 6x25 alphabet exhaustively, plus guided near-valid programs (arities 1..10) and random programs; Ok <=> no defect, Err(kind) => kind is a defect present.",
+    "Exhaustive only within the stated alphabet and length; the specification is silent about empty-string names.",
+    "bounded exhaustive enumeration + guided/random programs against an executable specification", "5/C15")
+chk("C16", "exploration",
+    "Generated builder specifications (parameter lists 1..10 in random order, arities 1..10 over ordered subsets, derivatives supplied in random order, invariant functions anywhere) with asymmetric position-coded closures; eval and every eval_partial_deriv compared bitwise with the same closures called by an oracle that routes by name; zero columns exact; params round-trip. Thorough adds Miri.",
+    "Bitwise comparison of the same closure on the same arguments; the oracle shares the closure code but not the routing.",
+    "reference-model monitor with position-coded closures (+ Miri)", "5/C16")
+chk("C17", "exploration",
+    "Random histories mixing valid updates with every misuse the property names (wrong output length at any function/derivative position: empty, shorter, longer; indices >= P; wrong parameter counts); each misuse must be Err without panic, and params/eval/derivatives must stay bit-identical to the snapshot after the last accepted update. Thorough adds Miri.",
+    "Closures misbehave on command through a shared control cell; a derivative closure that is not called is itself a finding.",
+    "shadow-state monitor over misuse histories (+ Miri)", "5/C17")
+chk("C18", "exploration",
+    "Exhaustive shape grid (model length 0..12 x rows 0..12 x columns 0..4 x weight lengths x four constructors) under several call orders/repetitions against a specification of violated requirements; accepted problems must start at the model's parameters with state exposed, equal an explicit set_params(initial) and be independent of call order (bitwise); threshold semantics probed at one-ulp resolution with a one-column model.",
+    "Builder error kinds are read from their Debug form (the type is not nameable outside the crate).",
+    "exhaustive shape enumeration against an executable specification + one-ulp threshold probes", "5/C18")
+chk("C19", "exploration",
+    "Statistical monitor: per design K Gaussian noise realisations (4000 quick / 100000 thorough), coverage of the band per sample and of t-intervals per parameter at p in {0.5,0.683,0.9,0.99} and the mean reduced chi2, each against 6-sigma binomial bounds plus 0.004 slack.",
+    "A pass means 'not distinguishable from calibrated at resolution ~0.01'; false-alarm rate designed < 1e-5 per run.",
+    "statistical coverage monitor over repeated noise realisations", "5/C19")
